@@ -81,6 +81,41 @@ def drec_wire(root):
     return out
 
 
+def brec_wire(root):
+    """children of the root of a BLOCK(n) $OMEGA/$SIGMA record: `omega` subtrees are items, the `block` subtree and the
+    FIX / WS tokens on the header keep their kind, everything else is `other`"""
+    from pharmpy.internals.parse import AttrToken, AttrTree
+    out = []
+    for ch in root.children:
+        if isinstance(ch, AttrTree) and str(ch.rule) == "omega":
+            out.append(["item", [tnode_wire(c) for c in ch.children]])
+        else:
+            w = tnode_wire(ch)
+            if isinstance(ch, AttrTree) and str(ch.rule) == "block":
+                w[0] = "block"
+            elif isinstance(ch, AttrToken) and str(ch.rule) in ("FIX", "WS"):
+                pass
+            else:
+                w[0] = "other"
+            out.append(["tok", w])
+    return out
+
+
+def block_raw_values(inits, size, sd, corr):
+    """the values OmegaRecord.update spells for a non-CHOLESKY BLOCK(n): the same float operations in the same order"""
+    import numpy as np
+    from pharmpy.internals.math import flattened_to_symmetric
+    A = flattened_to_symmetric(list(inits))
+    if corr:
+        for i in range(size):
+            for j in range(size):
+                if i != j:
+                    A[i, j] = A[i, j] / (math.sqrt(A[i, i]) * math.sqrt(A[j, j]))
+    if sd:
+        np.fill_diagonal(A, A.diagonal() ** 0.5)
+    return list(A[np.tril_indices_from(A)])
+
+
 def oparam_wire(raw, fix):
     raw = float(raw)
     s = str(int(raw)) if raw.is_integer() else str(raw)
@@ -399,27 +434,60 @@ def gen_block_record(rng, key="$OMEGA", size=None, exact=True):
                 vals.append(sds[i] if form_sd else round(sds[i] ** 2, 12))
             else:
                 vals.append(corr[i][j] if form_corr else round(corr[i][j] * sds[i] * sds[j], 12))
-    opts = []
-    if fix:
+    # FIX may be written on the record header (before or after BLOCK(n)) or be tied to one init:
+    # `v FIX`, `(v FIX)`, `(FIX v)`; the scale options likewise
+    fix_where = rng.choice(["header", "header", "before-block", "init", "paren-after", "paren-before"]) if fix else None
+    sd_on_init = form_sd and rng.random() < 0.2
+    pre, opts = [], []
+    if fix_where == "header":
         opts.append(rng.choice(FIXW))
-    if form_sd:
-        opts.append(rng.choice(SDW))
-    elif rng.random() < 0.1:
+    elif fix_where == "before-block":
+        pre.append(rng.choice(FIXW))
+    if form_sd and not sd_on_init:
+        (pre if rng.random() < 0.15 else opts).append(rng.choice(SDW))
+    elif not form_sd and rng.random() < 0.1:
         opts.append(rng.choice(VARW))
     if form_corr:
-        opts.append(rng.choice(CORRW))
+        (pre if rng.random() < 0.15 else opts).append(rng.choice(CORRW))
     elif rng.random() < 0.1:
         opts.append(rng.choice(COVW))
     rng.shuffle(opts)
-    head = f"{key} {rng.choice(BLOCKW)}({n})" + "".join(" " + o for o in opts)
+    head = f"{key}" + "".join(" " + o for o in pre) + f" {rng.choice(BLOCKW)}({n})" + "".join(" " + o for o in opts)
+    nvals = len(vals)
+    fix_at = rng.randrange(nvals) if fix_where in ("init", "paren-after", "paren-before") else None
+    sd_at = rng.randrange(nvals) if sd_on_init else None
+    if sd_at is not None and sd_at == fix_at:
+        sd_at = (sd_at + 1) % nvals
     lines = []
     pos = 0
     names = []
+    xn_used = False
     for i in range(n):
         row = []
-        for j in range(i + 1):
-            row.append(spell(rng, vals[pos]))
-            pos += 1
+        j = 0
+        while j <= i:
+            v = spell(rng, vals[pos])
+            extra = []
+            if pos == fix_at:
+                extra.append(rng.choice(FIXW))
+            if pos == sd_at:
+                extra.append(rng.choice(SDW))
+            rep = 1
+            if not extra and j + 1 <= i and vals[pos + 1] == vals[pos] and (pos + 1) not in (fix_at, sd_at) and rng.random() < 0.5:
+                rep = 2
+            if rep > 1:
+                row.append(f"({v})x{rep}")
+                xn_used = True
+            elif extra and fix_where == "paren-before" and pos == fix_at:
+                row.append("(" + " ".join(extra) + " " + v + ")")
+            elif extra and (fix_where == "paren-after" or rng.random() < 0.3):
+                row.append("(" + v + " " + " ".join(extra) + ")")
+            elif extra:
+                row.append(v + " " + " ".join(extra))
+            else:
+                row.append(v if rng.random() < 0.92 else f"({v})")
+            pos += rep
+            j += rep
         line = " ".join(row)
         if rng.random() < 0.3:
             nm = f"{'IIV' if key == '$OMEGA' else 'RUV'}_{rng.choice('KLMNPQ')}{rng.randint(1, 99)}"
@@ -429,5 +497,5 @@ def gen_block_record(rng, key="$OMEGA", size=None, exact=True):
     compact = rng.random() < 0.3 and not names
     txt = head + (" " + " ".join(lines) if compact else "\n" + "\n".join(lines)) + "\n"
     meta = dict(n=n, sds=sds, corr=corr, sd=form_sd, corrform=form_corr, fix=fix, vals=vals,
-                feats=["block", f"size={n}"] + (["sd"] if form_sd else []) + (["corr"] if form_corr else []) + (["fix"] if fix else []))
+                feats=["block", f"size={n}"] + (["sd"] if form_sd else []) + (["corr"] if form_corr else []) + (["fix:" + fix_where] if fix else []) + (["xn"] if xn_used else []))
     return txt, meta
